@@ -967,4 +967,17 @@ theorem tagTest_simple (st : Step) (h : st.tag ≠ star2) (t : Str) :
     tagTest st t 0 = (t == st.tag || st.tag == star) := by
   simp [tagTest, h]
 
+/-! ### the shape of expressions on which `findfirst` can differ from `findall` (finding C18-d) -/
+
+/-- a `**` step that carries an index or a `text()` condition -/
+def isFilteredDeep (a : Str) : Bool :=
+  match parseStep a with
+  | some st => st.tag == star2 && (st.idx.isSome || st.cond.isSome)
+  | none => false
+
+/-- some `**[filter]` step is directly followed by `..` -/
+def filteredDeepUp : List Str → Bool
+  | a :: b :: rest => (isFilteredDeep a && b == dotdot) || filteredDeepUp (b :: rest)
+  | _ => false
+
 end N0.NXml
